@@ -313,6 +313,14 @@ def main(ctx):
     for lu in (lus[0], lus[13], lus[22]):
         for ens in (1, 3):
             cells.append({"cfg": {"lineup": lu, "model": "mutating2", "ensemble": ens, "seed": S, "dims": 2, "loss": "minkowski"}, "seqs": [[2, 1]]})
+    # user-defined components that reuse what they own: a sampler that keeps (and later moves in place) the array it returned, a
+    # scheduler whose update() hook post-processes its arguments in place - the recorded history must not be reachable through either
+    for lu in ([{"cls": "Walkers", "bs": 3}], [{"cls": "Walkers", "bs": 2}, {"cls": "Halton", "bs": 2}], [{"cls": "Halton", "bs": 2}, {"cls": "Walkers", "bs": 3}]):
+        for model in ("ident2", "gauss2"):
+            cells.append({"cfg": {"lineup": lu, "model": model, "ensemble": 2, "seed": S, "dims": 2, "loss": "minkowski"}, "seqs": [[1, 1, 1, 1], [2, 2], [4]]})
+    for lu in (lus[0], lus[13], lus[5]):
+        for model in ("ident2", "gauss2"):
+            cells.append({"cfg": {"lineup": lu, "model": model, "ensemble": 2, "seed": S, "dims": 2, "loss": "minkowski", "scheduler": "rr_inplace"}, "seqs": [[1, 1, 2], [3, 1]]})
     # larger-scope probes: ensemble 5, batch sizes 7 and 5, four samplers, ten batches
     big = [{"cls": c, "bs": b} for c, b in zip(("Halton", "BestBatch", "RandomUniform", "ParticleSwarm"), (7, 5, 4, 3))]
     cells.append({"cfg": {"lineup": big, "model": "ident2", "ensemble": 5, "seed": S, "dims": 3, "loss": "minkowski"}, "seqs": [[4, 3, 3], [10]]})
